@@ -95,6 +95,18 @@ def check_chain(ctx, ch):
     for inplace in (False, True):
         x1, y1 = pc.operand_real(c1["x"], 0), pc.operand_real(c1["y"], 1)
         desc1 = "(%s %s%s %s)" % (pc.show(c1["x"]), c1["op"], "=" if inplace else "", pc.show(c1["y"]))
+        if not inplace:
+            # equality / hashing are observations: made BEFORE the arithmetic (whatever they remember about the operands must not
+            # leak into objects derived from them); the in-place pass is the history without them
+            for o_ in (x1, y1):
+                if pc.kind_of(o_) != "num":
+                    bool(o_ == o_)
+                    try:
+                        hash(o_)
+                    except TypeError:
+                        pass
+            if pc.kind_of(x1) != "num" and pc.kind_of(y1) != "num":
+                bool(x1 == y1)
         d_x1 = pc.dense_real(x1, nq) if pc.kind_of(x1) != "num" else None
         d_y1 = pc.dense_real(y1, nq) if pc.kind_of(y1) != "num" else None
         try:
